@@ -3,6 +3,7 @@ import itertools
 import os
 from concurrent.futures import ThreadPoolExecutor
 
+import c0405_lib
 import emu_lib
 import engine
 import histories
@@ -15,7 +16,7 @@ TYPES = {2, 4, 6}      # thread.prv: tid, state, cpu
 
 def gen_history(r, res, p_illegal=0.25):
     sysd = histories.small_sys(r)
-    w = histories.Walk(r, sysd)
+    w = histories.Walk2(r, sysd, {})
     n = r.randrange(2, 26)
     bad_budget = 1 if r.random() < p_illegal else 0
     res.dist("hist:" + ("with-illegal-step" if bad_budget else "legal-walk"))
@@ -36,6 +37,9 @@ def gen_history(r, res, p_illegal=0.25):
         if w.illegal:
             break
     k = r.random()
+    if w.illegal and r.random() < 0.7:
+        # continue as an implementation accepting the illegal step would: it must not be accepted
+        c0405_lib.complete_as_if(w)
     if not w.illegal and k < 0.8:
         w.finish_all()
         # start and finish never-started threads too, else the trace is (correctly) rejected
@@ -105,6 +109,8 @@ def run_cases(res, prep, cases, tag, types, lint=True, spec_oracle=True, workers
             res.sample({"events": [(e[0], e[1], e[2] if isinstance(e[2], str) else e[2].decode("latin1")) for e in events][:12],
                         "ovniemu": ires[0], "model": mres[0], "spec": exp})
         dis = emu_lib.compare(res, tag, sysd, events, mres, ires, types)
+        if not dis and c0405_lib.point_mismatch(mres, ires):
+            dis = [c0405_lib.point_mismatch(mres, ires)]
         # property oracle: the documented automaton decides the verdict
         if spec_oracle and exp is not None and ires[0] in ("ok", "reject") and ires[0] != exp:
             found = True
@@ -180,7 +186,8 @@ def check(res, tier, replay=None):
     if prep.bdir and prep.driver_ok:
         r = vcommon.rng("c04")
         n = 400 if tier == "quick" else 6000
-        cases = [gen_history(r, res) for _ in range(n)]
+        cases = c0405_lib.transition_matrix() + c0405_lib.directed_oversub()
+        cases += [gen_history(r, res) for _ in range(n)]
         if tier == "quick":
             cases += exhaustive(3)
         else:
